@@ -4,7 +4,7 @@ import json, os
 from vlib import Infra, write_ndjson, read_ndjson
 
 
-def run_part(ctx, sample=None):
+def run_part(ctx, sample=None, race=False):
     gen = ctx.tlc("Gen_Matcher", "Gen_Matcher.cfg", workers=4, timeout=900, label="gen-matcher")
     cases = gen.json_items("CASE")
     if len(cases) < 100:
@@ -13,12 +13,20 @@ def run_part(ctx, sample=None):
     if sample and len(cases) > sample:
         ctx.rng.shuffle(cases)
         cases = cases[:sample]
-    h = ctx.build_harness("src", ["zz_verif_common_test.go", "zz_verif_matcher_test.go"])
+    h = ctx.build_harness("src", ["zz_verif_common_test.go", "zz_verif_matcher_test.go"], race=race)
     cpath = os.path.join(ctx.work, "mcases.ndjson")
     opath = os.path.join(ctx.work, "mout.ndjson")
     inputs = [{k: v for k, v in c.items() if k != "expect"} for c in cases]
     write_ndjson(cpath, inputs)
-    ctx.run_harness(h, "TestVerifMatcherSchedules", env={"VERIF_CASES": cpath, "VERIF_OUT": opath}, timeout=1800)
+    rc, out = ctx.run_harness(h, "TestVerifMatcherSchedules", env={"VERIF_CASES": cpath, "VERIF_OUT": opath}, timeout=1800,
+                              allow_fail=race)
+    if race and ("WARNING: DATA RACE" in out or "concurrent map" in out):
+        ctx.violation("Go race detector (monitor, not the TLA+ spec) reported a data race during the matcher schedules:\n" + out[:3000],
+                      {"race_report": out[:20000], "monitor": "go -race", "harness": "TestVerifMatcherSchedules"})
+        ctx.cov["race_detector_reports_in_harness"] = out.count("WARNING: DATA RACE")
+        return 0, 0
+    if rc != 0:
+        raise Infra("matcher schedule harness failed:\n" + out[-3000:])
     res = read_ndjson(opath)
     if len(res) != len(cases):
         raise Infra("matcher schedules: %d cases, %d results" % (len(cases), len(res)))
